@@ -271,6 +271,7 @@ pub fn check(args: &[String]) -> i32 {
     let mut unlisted = 0u64;
     let mut worker_wall = 0f64;
     let mut max_steps = 0u64;
+    let mut reset_unavailable = false;
     for (out, d) in &docs {
         let n = d["runs"].as_u64().unwrap_or(0);
         evaluations += n;
@@ -288,6 +289,7 @@ pub fn check(args: &[String]) -> i32 {
         sim_time_ns += d["sim_time_ns"].as_str().and_then(|s| s.parse::<u128>().ok()).unwrap_or(0);
         worker_wall += d["wall_s"].as_f64().unwrap_or(0.0);
         max_steps = max_steps.max(d["max_steps_in_a_run"].as_u64().unwrap_or(0));
+        reset_unavailable |= d["provider_reset_unavailable"].as_bool().unwrap_or(false);
         unlisted += d["unlisted_violations"].as_u64().unwrap_or(0);
         if let Some(a) = d["samples"].as_array() {
             for s in a {
@@ -360,6 +362,10 @@ pub fn check(args: &[String]) -> i32 {
         ],
     });
     coverage["operations_per_kind"] = to_json(&op_kinds);
+    coverage["simulated_process_restart_available"] = json!(!reset_unavailable);
+    if reset_unavailable {
+        println!("note: the process-wide provider is not stored in a resettable LazyLock; runs start warm (no simulated process restart)");
+    }
     coverage["bounded_liveness"] = json!({
         "longest_run_in_scheduler_steps": max_steps,
         "step_budget": "2000 x operations + 50000 (exceeding it is reported as livelock)",
